@@ -6,9 +6,9 @@
    certificate (C20_dual_certificate_optimal).  The square root of the sqrt-based regression metrics is an argument of their
    model functions (here: sqrt). *)
 From Coq Require Import List Arith Bool Reals QArith Lia Lra ZArith.
-From TLV Require Import Base.Shape Base.PyList Base.Tensor Base.Ops Base.RSum Model.Metrics Proofs.MetricsProofs
+From TLV Require Import Base.Shape Base.PyList Base.Tensor Base.Ops Base.RSum Model.Metrics Model.MetricsSrc Proofs.MetricsProofs
   Proofs.MetricsProofs2 Proofs.MetricsProofs3 Proofs.MetricsProofs4 Proofs.MetricsProofs5 Proofs.MetricsProofs6
-  Proofs.MetricsProofs7 Proofs.MetricsProofs8 Proofs.MetricsProofs9 Proofs.MetricsProofs10 Proofs.MetricsProofs11 Proofs.MetricsProofs12.
+  Proofs.MetricsProofs7 Proofs.MetricsProofs8 Proofs.MetricsProofs9 Proofs.MetricsProofs10 Proofs.MetricsProofs11 Proofs.MetricsProofs12 Proofs.MetricsProofs13 Proofs.MetricsProofs14 Proofs.MetricsSrcTie.
 Import ListNotations.
 Local Close Scope Q_scope.
 Local Open Scope R_scope.
@@ -448,6 +448,77 @@ Theorem C20_cp_permute_same_tensor : forall (r : nat) (p : list nat) (w : list R
 Proof. exact cp_permute_same_tensor. Qed.
 Print Assumptions C20_cp_permute_same_tensor.
 
+(* reflective correlation for axis=None: k runs over the flat data *)
+Theorem C20_reflective_correlation_none_def_bound : forall (yt yp : tensor R), wf yt -> wf yp -> shape yp = shape yt ->
+  let n := prod (shape yt) in
+  let f := fun k => nth k (data yt) 0 in let g := fun k => nth k (data yp) 0 in
+  tget Rops (reflective_correlation Rops sqrt None yt yp) [] =
+    rsum n (fun k => f k * g k) / sqrt (rsum n (fun k => f k ^ 2) * rsum n (fun k => g k ^ 2)) /\
+  (0 < rsum n (fun k => f k ^ 2) * rsum n (fun k => g k ^ 2) ->
+   Rabs (tget Rops (reflective_correlation Rops sqrt None yt yp) []) <= 1).
+Proof. exact reflective_none_def_bound. Qed.
+Print Assumptions C20_reflective_correlation_none_def_bound.
+
+(* leverage scores from the part of the SVD contract the correspondence re-checks on every run: U^T U = I on the first
+   length(sv) columns.  Any numerical rank, with or without the renormalisation branch *)
+Theorem C20_leverage_simplex_given_svd : forall (renorm : bool) (U : mat R) (sv : list R) (nr nc : nat) (eps : R) (l : list R),
+  leverage_score_dist_any Rops renorm U sv nr nc eps = Ok l ->
+  (forall a b, (a < length sv)%nat -> (b < length sv)%nat ->
+     rsum nr (fun i => mget Rops U i a * mget Rops U i b) = if Nat.eqb a b then 1 else 0) ->
+  length l = nr /\ Forall (fun x => 0 <= x) l /\ fsum Rops l = 1.
+Proof. exact leverage_simplex_given_svd. Qed.
+Print Assumptions C20_leverage_simplex_given_svd.
+
+(* the float32 renormalisation branch as a statement about the model alone (no assumption on U beyond a non-zero entry in the
+   selected block U[:, :num_rank]): the result has one entry per row, is non-negative and sums to one *)
+Theorem C20_leverage_renorm_sum_one : forall (U : mat R) (sv : list R) (nr nc : nat) (eps : R) (l : list R),
+  leverage_score_dist_any Rops true U sv nr nc eps = Ok l ->
+  (exists i j, (i < nr)%nat /\ (j < num_rank Rops sv nr nc eps)%nat /\ mget Rops U i j <> 0) ->
+  length l = nr /\ Forall (fun x => 0 <= x) l /\ fsum Rops l = 1.
+Proof. exact leverage_renorm_sum_one. Qed.
+Print Assumptions C20_leverage_renorm_sum_one.
+
+(* cp_permute_factors on a LIST of CP tensors, end to end (given the oracle contract): for every listed tensor equivalent to
+   the reference the returned weights and factors are the input ones permuted by the returned permutation p, component i of
+   every permuted factor is a non-zero multiple of component i of the reference, and the permuted CP tensor stands for the
+   same full tensor *)
+Theorem C20_cp_permute_list_aligned_given_lsa : forall (ref : list (mat R)) (nas : list (list R))
+  (ts : list (list R * list (mat R) * list (list R))) (assign : mat R -> list nat) (outs : list (list R * list (mat R) * list nat)),
+  cp_permute_factors_list Rops ref nas ts assign = Ok outs -> lsa_contract assign ->
+  let r := ncols (hd [] ref) in (0 < r)%nat ->
+  (forall t, In t ts -> tape_valid (zip_modes ref (snd (fst t)) nas (snd t)) /\
+                        exists rec, equivalent_by true r (zip_modes ref (snd (fst t)) nas (snd t)) rec) ->
+  Forall2 (fun t out =>
+    let w := fst (fst t) in let fs := snd (fst t) in let p := snd out in
+    is_perm r p /\ fst (fst out) = map (fun k => nth k w 0) p /\ snd (fst out) = map (permute_cols Rops p) fs /\
+    (forall i m, (i < r)%nat -> In m (zip_modes ref fs nas (snd t)) -> exists d, d <> 0 /\
+       forall k, (k < nrows (mB m))%nat -> mget Rops (permute_cols Rops p (mB m)) k i = d * mget Rops (mA m) k i) /\
+    (forall idx, Forall2 (fun F i => (i < nrows F)%nat) fs idx ->
+       cp_entry r (fst (fst out)) (snd (fst out)) idx = cp_entry r w fs idx)) ts outs.
+Proof. exact cp_permute_list_aligned. Qed.
+Print Assumptions C20_cp_permute_list_aligned_given_lsa.
+
+(* ---------- source tie (factors.py, similarity.py, leverage_scores.py) ----------
+   On every run the harness extracts from the current Python source a closed record of the decisions the code makes
+   (Model/MetricsSrc.v) and checks, by computation, that it IS the canonical record.  These theorems are the other half: for
+   every carrier and all inputs the meaning of the canonical record is the hand-written model the theorems above are about. *)
+Theorem C20_source_tie_congruence : forall (F : Type) (Op : fops F) (absv : bool) (As Bs : list (mat F)) (nas nbs : list (list F))
+  (assign : mat F -> list nat),
+  congruence_src Op canonical_cs absv As Bs nas nbs assign = congruence Op absv As Bs nas nbs assign.
+Proof. exact @congruence_src_canonical. Qed.
+Print Assumptions C20_source_tie_congruence.
+
+Theorem C20_source_tie_correlation_index : forall (F : Type) (Op : fops F) (meth : option cmethod) (tol : F) (f1s f2s : list (mat F))
+  (n1s n2s : list (list F)),
+  correlation_index_src Op canonical_ci meth tol f1s f2s n1s n2s = correlation_index Op meth tol f1s f2s n1s n2s.
+Proof. exact @correlation_index_src_canonical. Qed.
+Print Assumptions C20_source_tie_correlation_index.
+
+Theorem C20_source_tie_leverage : forall (F : Type) (Op : fops F) (low : bool) (U : mat F) (sv : list F) (nr nc : nat) (eps : F),
+  leverage_src Op canonical_lv low U sv nr nc eps = leverage_score_dist_any Op low U sv nr nc eps.
+Proof. exact @leverage_src_canonical. Qed.
+Print Assumptions C20_source_tie_leverage.
+
 (* ---------- when the entry points fail ---------- *)
 (* congruence_coefficient (its model) rejects EXACTLY: lists of different lengths, an empty list, a matrix whose number of
    columns differs from that of the first one, a pair with different numbers of rows, a matrix with an all-zero column *)
@@ -491,6 +562,31 @@ Theorem C20_leverage_fails_iff : forall (U : mat R) (sv : list R) (nr nc : nat) 
   forall i, (i < length sv)%nat -> nth i sv 0 <= list_max Rops sv * INR (Nat.max nr nc) * eps.
 Proof. exact leverage_err_iff. Qed.
 Print Assumptions C20_leverage_fails_iff.
+
+(* ---------- the axis argument given as a TUPLE (MSE, RMSE, reflective correlation) ---------- *)
+(* accepted exactly when every entry is a legal axis and no axis occurs twice after normalisation *)
+Theorem C20_norm_axes_spec : forall (zs : list BinNums.Z) (nd : nat),
+  match norm_axes zs nd with
+  | Ok l => Forall2 (fun z a => norm_axis z nd = Ok a) zs l /\ NoDup l
+  | Err => (exists z, In z zs /\ norm_axis z nd = Err) \/
+           (exists l, Forall2 (fun z a => norm_axis z nd = Ok a) zs l /\ ~ NoDup l)
+  end.
+Proof. exact norm_axes_spec. Qed.
+Print Assumptions C20_norm_axes_spec.
+
+(* a one-element tuple is the integer axis (so the definitions above apply) *)
+Theorem C20_tuple_axis_singleton : forall (a : nat) (yt yp : tensor R),
+  MSE_axes Rops [a] yt yp = MSE Rops (Some a) yt yp /\
+  RMSE_axes Rops sqrt [a] yt yp = RMSE Rops sqrt (Some a) yt yp /\
+  reflective_correlation_axes Rops sqrt [a] yt yp = reflective_correlation Rops sqrt (Some a) yt yp.
+Proof. intros. apply axes_singleton. Qed.
+Print Assumptions C20_tuple_axis_singleton.
+
+(* several axes: reduce the highest axis, then the rest; the empty tuple reduces nothing *)
+Theorem C20_tsum_axes_step : forall (a : nat) (l : list nat) (t : tensor R), (forall b, In b l -> (b <= a)%nat) ->
+  tsum_axes Rops (a :: l) t = tsum_axes Rops l (tsum Rops (Some a) t) /\ tsum_axes Rops [] t = t.
+Proof. intros a l t H. split; [now apply tsum_axes_step | reflexivity]. Qed.
+Print Assumptions C20_tsum_axes_step.
 
 (* ---------- non-vacuity ---------- *)
 (* the oracle contract is satisfiable: the brute force itself meets it *)
@@ -583,3 +679,9 @@ Example C20_ex_rejects_Q :
   congruence Qops true [[[3#1; 0]; [4#1; 0]]] [[[1; 1]; [1; 2]]] [[5#1; 0]] [[1; 2]] (fun _ => [0; 1]%nat) = Err /\
   leverage_score_dist Qops [[1]; [0]] [0] 2 1 (1#1000) = Err.
 Proof. vm_compute. split; reflexivity. Qed.
+
+(* tuple axes in the executed instance: (-1, 0) on a 2 x 2 tensor reduces everything; (0, 0) and (2,) are rejected *)
+Example C20_ex_tuple_axes_Q :
+  norm_axes [(-1)%Z; 0%Z] 2 = Ok [1; 0]%nat /\ norm_axes [0%Z; (-2)%Z] 2 = Err /\ norm_axes [2%Z] 2 = Err /\
+  MSE_axes Qops [1; 0]%nat (mk [2; 2]%nat [1; 2; 3; 4]) (mk [2; 2]%nat [0; 0; 0; 0]) = mk [] [15 # 2].
+Proof. vm_compute. repeat split. Qed.
